@@ -532,7 +532,12 @@ def _lazy_part(rep, tier, wd, J):
         sub = [e for e in events if e["_curve"] == name]
         Nn = sub[0]["n"]
         # canaries: one corrupted field each; own group so that they do not disturb the step relation
-        mid = [e for e in sub if e["mode"] == "table" and 0 < e["loc_len"] < Nn and e["pub_len"] == 0][0]
+        # (built from real events of the expected shape; if the real code never produced such an event - e.g. because it
+        #  publishes the table early - the canaries are built from a synthesised well-formed event instead, so that the
+        #  real events still reach the specification and are judged there)
+        mids = [e for e in sub if e["mode"] == "table" and 0 < e["loc_len"] < Nn and e["pub_len"] == 0]
+        tab = [e for e in sub if e["mode"] == "table"]
+        mid = mids[0] if mids else dict(tab[0], loc_len=max(1, Nn // 2), pub_len=0, same=False, res_bad=0)
         sc = [e for e in sub if e["mode"] == "scale"][0]
         can = [dict(mid, pub_len=mid["loc_len"], same=True, grp="canary1", _want="table-partly-visible"),
                dict(mid, res_bad=1, grp="canary2", _want="reader-result"),
